@@ -21,6 +21,7 @@ PROP = {
         "the counters are part of the LTS state (Hsms/Generations.v) and are updated at exactly the inc/dec call sites read from hsms/connection_metrics.go, connection_send.go, connection_runtime.go, connection_lifecycle.go; atomicity as listed in Generations.v",
         "per-outcome table = the table in Hsms/Metrics.v (read from the code and its comments): a synchronous data write error counts as an error also for a W-clear send (the doc comment of DataMsgErrCount is ambiguous on W-clear sends; code, in-code comments and connection_forward_test.go agree on counting it)",
         "session-id validation and decode-error handlers are off (defaults); decodeErr/bodyDecodeErr are not modelled; autoS9F9 (on in the SECS-I equipment role used by pass 1) is an ordinary asynchronous data send entered by the environment after a T3 (logged as an anonymous wire event)",
+        "connection options the counters depend on are varied on the HSMS-SS pass (scenario options-v*-a*-h*: session-ID validation x autoS9F9 x handler present/absent/with decode-error handler, trace on/off; also drawn at random in the random histories); a foreign-session data frame is a frame the peer sent while Selected: counted as received, then (validation on) dropped and answered S9F1, which the peer reads back and which counts as a data send; the list of options and their coverage is in the evidence notes",
         "both transports: pass 0 HSMS-SS, pass 1 SECS-I over TCP (equipment role; no Reject/Deselect outcomes there; the peer counts a block as received only when its ACK got through)",
         "e2e: dataRecv is compared with the peers' count of completely written data frames only when every such frame shows evidence of dispatch (a reply result or a handler call); otherwise only the bounds evidence <= recv <= written are asserted and the history is not passed to the monitor (histogram bucket recv-unsettled)",
         "e2e: 'quiescent' = every call returned, the async sender flushed, the state reads Selected (or Close returned) and the reconnecting gauge was polled to zero within 5 s (the loop's deferred decrement runs just after the successful dial)",
